@@ -206,7 +206,20 @@ func showResult(res *xpath.Result) string {
 	if errL != nil {
 		ls = "err"
 	}
-	return fmt.Sprintf("%s|B=%s|N=%s|L=%s", kind, bs, ns, ls)
+	// the fourth getter: the node-set of a node-set, an error for every other kind of value — never a panic
+	nsOK := func() (r string) {
+		defer func() {
+			if p := recover(); p != nil {
+				r = fmt.Sprintf("|NODESET-GETTER-PANIC:%v", p)
+			}
+		}()
+		_, err := res.GetNodeSetResult()
+		if (err == nil) != (kind == "nodeset") {
+			return "|NODESET-GETTER:" + fmt.Sprint(err)
+		}
+		return ""
+	}()
+	return fmt.Sprintf("%s|B=%s|N=%s|L=%s", kind, bs, ns, ls) + nsOK
 }
 
 func firstLine(s string) string {
